@@ -53,6 +53,8 @@ def h(cfg):
     # every resource named by a task is present; default Mon-Fri 8 when not supplied
     for i in range(P.n):
         nm = P.res[i]
+        if nm is None:
+            continue  # no resource named
         check(nm in resources, 'C03 resource named by a task is missing from the result', detail=str(nm))
         if nm in resources and (nm not in P.cal or not P.supplied[nm]):
             r = resources[nm]
